@@ -42,6 +42,17 @@ def run(index, rep):
     from .lanes import lane_rule
     rep.guard(lane_rule, index, rep, "C03.ARGLANE", ("feed", "biofuel"), 40, "feed and biofuel crossed at a call")
     rep.guard(toothless, index, rep)
+    rep.guard(lp_pins, index, rep)
+
+
+def lp_pins(index, rep):
+    """the last link of 'people first': what round 1 found people need is what the feed round's programme holds human consumption at"""
+    from .lpdb import LPDB
+    from .c02 import pins
+    db = LPDB(index)
+    for flag in db.resources:
+        db.extract_resource(flag, "to_animals")
+    pins(db, rep, "C03.PIN")
 
 
 # ------------------------------------------------------------------------------------------------ SHUT
